@@ -16,13 +16,16 @@ def check_C11(tier, seed):
     G.validate_translator(rp, "default", seed, 300 if tier == "quick" else 1500)
     G.validate_translator(rp, "compact", seed, 300 if tier == "quick" else 1500)
     G.run_lemire(rp, tier, seed)
-    G.run_bell(rp, tier, seed)
+    bc = {f: G.bell_classes(f, tier, seed) + G.bell_threshold_classes(f, 1 if tier == "thorough" else 2)
+          + G.bell_subnormal_truncated_classes(f, 1 if tier == "thorough" else 2) for f in ("f64", "f32")}
+    G.run_bell(rp, tier, seed, classes=bc)
     rp.bounds += [
         "Eisel-Lemire: w ranges over ALL values of each leading-zero class in every query; decimal exponents "
         "[-343, 309] concretely, all other i32 exponents through the symbolic-q early-out query + ground threshold facts",
         "quick tier: every q at lz=0 and two seeded lz, plus a seeded quarter of the boundary classes; thorough: all 64 lz",
         "Bellerophon: q in [-351, 310]; truncated (many_digits) case restricted to w < 10^19 (what parse_number delivers); "
-        "quick: one seeded (lz, many) per q (+30% a second); thorough: 16 lz values per q, truncated at lz <= 4",
+        "quick: one seeded (lz, many) per q (+30% a second) plus every second class within a few bits of the zero / overflow "
+        "thresholds; thorough: 16 lz values per q, truncated at lz <= 4, all threshold classes",
         "both formats f32 and f64; one instantiation each",
     ]
     rp.assumptions += [
@@ -126,14 +129,16 @@ def _correct_rounding(pid, fmt, tier, seed):
     G.validate_translator(rp, "default", seed, 200)
     G.run_lemire(rp, tier, seed, fmts=(fmt,), classes=None if tier == "thorough" else {fmt: _classes_subset(fmt, tier, seed, 0.35)})
     bc = G.bell_classes(fmt, tier, seed)
-    G.run_bell(rp, tier, seed, fmts=(fmt,), classes={fmt: bc if tier == "thorough" else bc[::2]})
+    if tier != "thorough":
+        bc = bc[::2] + G.bell_threshold_classes(fmt, 3) + G.bell_subnormal_truncated_classes(fmt, 2)
+    G.run_bell(rp, tier, seed, fmts=(fmt,), classes={fmt: bc})
     G.run_fast_path(rp, tier, seed, fmts=(fmt,))
     G.run_tables(rp)
     G.run_sticky(rp)
     pre = "c18_%s" % fmt
     G.run_kani_core(rp, tier, seed, [pre, "c17_%s" % fmt, "c18_masks"])
     G.run_kani_slow(rp, tier, seed, fmts=(fmt,))
-    G.run_kani_parse(rp, tier, seed, ["pn", "pm"])
+    G.run_kani_parse(rp, tier, seed, ["pn", "pm"], minimal=True)
     if tier == "thorough":
         G.run_kani_vec(rp, "quick", seed, ["C12"])
     rp.bounds += [
@@ -164,7 +169,7 @@ def check_C03(tier, seed):
     G.run_fast_path(rp, tier, seed)
     G.run_sticky(rp)
     G.run_tables(rp, configs=("default",))
-    G.run_kani_parse(rp, tier, seed, ["pm"])
+    G.run_kani_parse(rp, tier, seed, ["pm"], minimal=True)
     rp.bounds += ["renderings are characterised, not computed: shortest / 17(9)-digit renderings w*10^q of x satisfy RN(w*10^q) = x by "
                   "definition, so the round trip is exactly the correct-rounding contract of the moderate/fast path for <= 17-digit w; "
                   "exact expansions (<= 767 / 112 digits) stay below MAX_DIGITS (sticky lemma) and go through the digit-loop contracts"]
@@ -233,7 +238,7 @@ def check_C07(tier, seed):
         bc[f] = e if tier == "thorough" else e[::7]
     G.run_bell(rp, tier, seed, classes=bc)
     G.run_kani_core(rp, tier, seed, ["c18_"])
-    G.run_kani_parse(rp, tier, seed, ["pn"])
+    G.run_kani_parse(rp, tier, seed, ["pn"], minimal=True)
     rp.bounds += ["every (q, lz) class whose value can be subnormal, zero, in the top binade or infinite (quick: a seeded 500/250 of them)",
                   "early outs by decimal exponent alone: symbolic-q queries (q < smallest, q > largest, zero significand) + ground threshold facts",
                   "round primitive over its whole domain; exponent saturation of parse_number over the full i32 range (Kani)"]
@@ -246,7 +251,7 @@ def check_C09(tier, seed):
     for fmt in ("f64", "f32"):
         G.run_lemire(rp, tier, seed, fmts=(fmt,), classes=None if tier == "thorough" else {fmt: _classes_subset(fmt, tier, seed, 0.3)})
     G.run_fast_path(rp, tier, seed)
-    G.run_kani_parse(rp, tier, seed, ["pn"])
+    G.run_kani_parse(rp, tier, seed, ["pn"], minimal=True)
     bc = {f: G.bell_classes(f, tier, seed)[::3] for f in ("f64", "f32")}
     G.run_bell(rp, tier, seed, classes=bc)
     rp.bounds += ["each algorithm returns RN of the same exact value on BOTH sides of every switch-over: the moderate path is proved for all w "
@@ -363,7 +368,7 @@ def check_C04(tier, seed):
     res = pool.run_jobs(bjobs, progress=1000)
     G.consume(rp, res, "compact", "bellerophon[debug-assertions]")
     # (b) loops / memory: Kani models the dev profile (overflow checks and debug assertions on): any reachable panic fails
-    G.run_kani_parse(rp, tier, seed, ["pn", "pm"])
+    G.run_kani_parse(rp, tier, seed, ["pn", "pm"], minimal=True)
     G.run_kani_core(rp, tier, seed, ["c18_", "c17_"])
     G.run_kani_slow(rp, tier, seed)
     G.run_capacity(rp)
@@ -386,7 +391,9 @@ def check_C05(tier, seed):
     cls = {f: _classes_subset(f, tier, seed, 0.15) for f in ("f64", "f32")}
     G.run_lemire(rp, tier, seed, classes=None if tier == "thorough" else cls)
     bc = {f: G.bell_classes(f, tier, seed) for f in ("f64", "f32")}
-    G.run_bell(rp, tier, seed, classes=bc if tier == "thorough" else {f: v[::2] for f, v in bc.items()})
+    if tier != "thorough":
+        bc = {f: v[::2] + G.bell_threshold_classes(f, 3) + G.bell_subnormal_truncated_classes(f, 2) for f, v in bc.items()}
+    G.run_bell(rp, tier, seed, classes=bc)
     G.run_tables(rp)
     # the two vector back-ends against the same reference model
     G.run_kani_vec(rp, "quick", seed, ["C13"], config="alloc")
@@ -404,9 +411,15 @@ def check_C08(tier, seed):
     rp = Report("C08", tier, seed)
     rp.trusted.update(KANI_TRUST + BASE_TRUST)
     G.run_kani_parse(rp, tier, seed, ["any"], accept_panics=True)
-    G.run_kani_vec(rp, tier, seed, ["C13", "C12"])
+    # quick: the harnesses that exercise unsafe code (raw writes, set_len, ptr::copy, from_raw_parts); thorough: all
+    G.run_kani_vec(rp, tier, seed, ["C13", "C12"],
+                   name_filter=None if tier == "thorough" else r"push|pop|extend|resize|try_from|normalize|shl_limbs|clone_deref|shl_bits|large_add_from")
     if tier == "thorough":
         G.run_kani_vec(rp, "quick", seed, ["C13", "C12"], config="alloc")
+    else:
+        # the heap back-end's raw-pointer code (shl_limbs trusts capacity()) and its growth paths, short lengths
+        G.run_kani_vec(rp, "quick", seed, ["C13", "C12"], config="alloc",
+                       name_filter=r"(shl_limbs|push|extend|resize|try_from)_(0|1|2|3)(_|$)")
     G.run_fast_path(rp, tier, seed)
     G.run_tables(rp, configs=("default",))
     rp.bounds += ["digit loops with ARBITRARY bytes (all 256 values, leading/trailing zeros) at shapes up to 40 bytes: Kani's pointer, bounds and "
